@@ -172,5 +172,5 @@ def _final_balance(events):
 
 def make_jobs(tier, seed):
     rng = random.Random(120000 + seed)
-    n = 420 if tier == 'quick' else 7000
+    n = 420 if tier == 'quick' else 30000
     return [{'kind': 'pair', 'seed': rng.randrange(1 << 30), 'i': i, 'odd_length': i % 6 == 5} for i in range(n)]
